@@ -302,6 +302,9 @@ pub enum BOp {
 
 pub struct BSys {
     pub alphabet: Vec<(String, Vec<u8>)>,
+    /// number of storage buffers the receiver starts with (1: first fragments on an empty slot are
+    /// refused for lack of storage while another train holds the only buffer)
+    pub buffers: usize,
 }
 
 fn b_alphabet() -> Vec<(String, Vec<u8>)> {
@@ -313,6 +316,9 @@ fn b_alphabet() -> Vec<(String, Vec<u8>)> {
         v.push((format!("first-id0-{}", n), Desc::first(l, 0x0800, 0, tot, &x[..2]).print()));
     }
     v.push(("first-id1-reuse".into(), Desc::first(Lbl::ReUse, 0x0800, 1, 6, &x[..2]).print()));
+    v.push(("first-id1-6B".into(), Desc::first(L6B, 0x0800, 1, 12, &x[..2]).print()));
+    v.push(("first-id1-3A".into(), Desc::first(L3A, 0x0800, 1, 9, &x[..2]).print()));
+    v.push(("end-id0-reuse-ok".into(), Desc::end(0, &x[2..], crate::refm::crc_ref(6, 0x0800, &[], &x)).print()));
     v.push(("first-alias-id2-3A".into(), Desc::first(L3A, 0x0800, 2, 9, &x[..2]).print()));
     v.push(("inter-id0".into(), Desc::inter(0, &x[2..3]).print()));
     v.push(("inter-id1".into(), Desc::inter(1, &x[2..3]).print()));
@@ -339,7 +345,7 @@ impl System for BSys {
     fn init(&self) -> Vec<BSt> {
         // storage: two buffers only, so that 'storage exhausted' rejections occur (nothing is re-provisioned
         // for open trains; delivered buffers come back)
-        vec![BSt { rx: RxS::new(2, 8, &[8, 8]), near: None, train: [None, None, None] }]
+        vec![BSt { rx: RxS::new(2, 8, &vec![8; self.buffers]), near: None, train: [None, None, None] }]
     }
     fn ops(&self, _s: &BSt) -> Vec<BOp> {
         let mut v: Vec<BOp> = (0..self.alphabet.len()).map(BOp::Feed).collect();
@@ -464,12 +470,12 @@ pub fn a_sys(thorough: bool) -> ASys {
 }
 
 pub fn b_sys() -> BSys {
-    BSys { alphabet: b_alphabet() }
+    BSys { alphabet: b_alphabet(), buffers: 2 }
 }
 
 pub fn run(tier: Tier) -> i32 {
     let rep = Report::new("C04", tier);
-    rep.set_rule("A: closure of the product real Encapsulator x real Decapsulator (lock-step, every successfully produced packet fed at once) under send(label in {two 6-byte, 3-byte, broadcast, explicit re-use} x how in {complete, complete via encap_ext, first fragment on id 0/1 via encap and encap_ext, fail: small buffer / PDU too long / protocol type, encap_ext fail}), zero label, continue(id) (end fragment of an open train), reset of both sides, disable, enable, enable-with-max(1,2); ghost = label intended per PDU and what the wire carried; B: closure of the receiver alone under 27 packets (complete and first fragments of every label kind incl. re-use, continuation packets of known/unknown ids, rejected and malformed start packets, padding) and reset; oracle: a resolved re-use label equals the label of the nearest preceding start/complete packet of the frame. distinct = (op, outcome)");
+    rep.set_rule("A: closure of the product real Encapsulator x real Decapsulator (lock-step, every successfully produced packet fed at once) under send(label in {two 6-byte, 3-byte, broadcast, explicit re-use} x how in {complete, complete via encap_ext, first fragment on id 0/1 via encap and encap_ext, fail: small buffer / PDU too long / protocol type, encap_ext fail}), zero label, continue(id) (end fragment of an open train), reset of both sides, disable, enable, enable-with-max(1,2); ghost = label intended per PDU and what the wire carried; B: closure of the receiver alone under 30 packets, with two and with one storage buffer (so that start packets are also rejected for lack of storage), (complete and first fragments of every label kind incl. re-use, continuation packets of known/unknown ids, rejected and malformed start packets, padding) and reset; oracle: a resolved re-use label equals the label of the nearest preceding start/complete packet of the frame. distinct = (op, outcome)");
     rep.assume("A: both label memories are reset at the same points; receiver storage is kept sufficient by re-provisioning delivered buffers; trains have 2 fragments");
     rep.assume("B: a start/complete packet whose label cannot be read (truncated, malformed) counts as carrying an unknown label: nothing may be resolved from before it; padding does not end the frame for the oracle (weaker than the crate, which clears its memory)");
     let asys = a_sys(tier.thorough());
@@ -483,6 +489,12 @@ pub fn run(tier: Tier) -> i32 {
     let exb = explore(&bsys, &Limits { max_states: 3_000_000, max_depth: 10_000 }, &rep, "B receiver alone");
     if !exb.closed {
         rep.cap("B did not close under the state cap");
+    }
+    // same model with a single storage buffer: start packets are then also rejected for lack of storage
+    let bsys1 = BSys { alphabet: b_alphabet(), buffers: 1 };
+    let exb1 = explore(&bsys1, &Limits { max_states: 3_000_000, max_depth: 10_000 }, &rep, "B receiver alone (one buffer)");
+    if !exb1.closed {
+        rep.cap("B (one buffer) did not close under the state cap");
     }
     let i = exb.states.len() - 1;
     rep.sample(2, || json!({"model": "B", "history": exb.path(i).iter().map(|o| bsys.op_json(o)).collect::<Vec<_>>()}));
